@@ -603,8 +603,11 @@ func c17Actions(w *c17World, s *c17State) []c17Action {
 			started = k
 		}
 	}
-	for _, variant := range []string{"no-inresponseto", "foreign-request-id", "response-level-only", "confirmation-level-only"} {
-		if (variant == "response-level-only" || variant == "confirmation-level-only") && started < 0 {
+	for _, variant := range []string{"no-inresponseto", "foreign-request-id", "response-level-only", "confirmation-level-only",
+		// the IdP's signed answer to ANOTHER browser's request, re-wrapped by its deliverer in an unsigned Response that names this browser's
+		// pending request; the assertion's only confirmation has the given method
+		"another-browsers-answer-rewrapped/bearer", "another-browsers-answer-rewrapped/holder-of-key", "another-browsers-answer-rewrapped/sender-vouches"} {
+		if (variant == "response-level-only" || variant == "confirmation-level-only" || strings.HasPrefix(variant, "another-browsers-answer-rewrapped/")) && started < 0 {
 			continue
 		}
 		jar := w.view(s, acs)
@@ -889,7 +892,13 @@ func c17Unsolicited(w *c17World, s *c17State, variant string, started int, rs, r
 	case "confirmation-level-only":
 		resp.InResponseTo, a.Confirmations[0].InResponseTo = nil, pend
 	}
-	doc := samlgen.Doc(harness.BuildResponse(resp, []*samlgen.Assertion{a}, harness.Layout{SignResponse: true}, idp1(), nil))
+	lay := harness.Layout{SignResponse: true}
+	if m, ok := strings.CutPrefix(variant, "another-browsers-answer-rewrapped/"); ok {
+		resp.InResponseTo, a.Confirmations[0].InResponseTo = pend, samlgen.S("id-request-of-another-browser")
+		a.Confirmations[0].Method = "urn:oasis:names:tc:SAML:2.0:cm:" + m
+		lay = harness.Layout{SignAssertion: true}
+	}
+	doc := samlgen.Doc(harness.BuildResponse(resp, []*samlgen.Assertion{a}, lay, idp1(), nil))
 	form := w.responseForm(doc)
 	if rs != "" {
 		form.Set("RelayState", rs)
